@@ -13,7 +13,8 @@ def key(desc):
         [desc["prefix"], sorted(desc["patterns"]), "".join(sorted(desc["alphabet"])),
          bool(desc["just_prefix"]), sorted(map(tuple, desc["stats"])),
          bool(desc.get("proper")) and not desc["just_prefix"],
-         None if right is None else json.loads(key(dict(right, stats=desc["stats"])))]
+         None if right is None else json.loads(key(dict(right, stats=desc["stats"], flags=""))),
+         "".join(sorted(set(desc.get("flags") or ""))) if (right is None and not desc["just_prefix"]) else ""]
     )
 
 
@@ -27,16 +28,23 @@ def desc_of(comb_class):
         "stats": [list(s) for s in comb_class.stats],
         "proper": bool(comb_class.proper),
         "right": None if comb_class.right is None else desc_of(comb_class.right),
+        "flags": getattr(comb_class, "flags", ""),
     }
 
 
 @functools.lru_cache(maxsize=200000)
 def _objects(k, n):
-    prefix, patterns, alphabet, just_prefix, stats, proper, right = json.loads(k)
+    prefix, patterns, alphabet, just_prefix, stats, proper, right, flags = json.loads(k)
     out = []
+    if flags:
+        # every word of the unflagged class preceded by one flag letter
+        if n >= 1:
+            base_k = json.dumps([prefix, patterns, alphabet, just_prefix, stats, proper, right, ""])
+            out.extend(f + w for w in _objects(base_k, n - 1) for f in flags)
+        return tuple(out)
     if right is not None:
         # pairs u|v: u from the left description, v from the right one, '|' counts as a letter
-        left_k = json.dumps([prefix, patterns, alphabet, just_prefix, stats, proper, None])
+        left_k = json.dumps([prefix, patterns, alphabet, just_prefix, stats, proper, None, ""])
         right_k = json.dumps(right)
         for i in range(n):
             lefts = _objects(left_k, i)
@@ -84,10 +92,10 @@ def _terms(k, n):
 
 
 def _desc_from_key(k):
-    prefix, patterns, alphabet, just_prefix, stats, proper, right = json.loads(k)
+    prefix, patterns, alphabet, just_prefix, stats, proper, right, flags = json.loads(k)
     return {"prefix": prefix, "patterns": patterns, "alphabet": alphabet,
             "just_prefix": just_prefix, "stats": stats, "proper": proper,
-            "right": None if right is None else _desc_from_key(json.dumps(right))}
+            "right": None if right is None else _desc_from_key(json.dumps(right)), "flags": flags}
 
 
 def terms(desc, n):
@@ -105,6 +113,8 @@ def objects_by_params(desc, n):
 def is_empty(desc):
     """No object of any size.  Decided from the enumeration itself: a word class is
     non-empty iff it has an object of size |prefix| or |prefix|+1."""
+    if desc.get("flags"):
+        return is_empty(dict(desc, flags=""))
     if desc.get("right") is not None:
         return is_empty(dict(desc, right=None)) or is_empty(dict(desc["right"], stats=desc["stats"]))
     n = len(desc["prefix"])
